@@ -11,6 +11,7 @@ import shutil
 import subprocess
 import sys
 import tempfile
+import threading
 import time
 import hashlib
 from concurrent.futures import ThreadPoolExecutor
@@ -174,17 +175,40 @@ def parallel(fn, items, n=None):
 SHIM = os.path.join(VERIF, "harness", "native", "libchunkcache.so")
 
 
+_SHIM_LOCK = threading.Lock()
+_SHIM_OK = {}
+
+
+def _shim_loads():
+    """the shim must be loadable by the dynamic linker (a half-written file would make every driver fail with rc 127)"""
+    try:
+        return subprocess.run(["/bin/true"], env=dict(os.environ, LD_PRELOAD=SHIM), stdout=subprocess.PIPE, stderr=subprocess.PIPE).stderr == b""
+    except OSError:
+        return False
+
+
 def build_shim(verbose=False):
     """Compile the LD_PRELOAD performance shim (harness/native/chunkcache.c); the drivers work without it, only slower."""
+    with _SHIM_LOCK:          # checks start their drivers from a thread pool: build once, never two compilers on one temporary file
+        if "ok" not in _SHIM_OK:
+            _SHIM_OK["ok"] = _build_shim(verbose)
+        return _SHIM_OK["ok"]
+
+
+def _build_shim(verbose=False):
     src = os.path.join(VERIF, "harness", "native", "chunkcache.c")
-    if os.path.exists(SHIM) and os.path.getmtime(SHIM) >= os.path.getmtime(src):
+    if os.path.exists(SHIM) and os.path.getmtime(SHIM) >= os.path.getmtime(src) and _shim_loads():
         return True
     for cc in ("gcc", "clang", "cc"):
         try:
-            tmp = SHIM + ".%d.tmp" % os.getpid()
+            fd, tmp = tempfile.mkstemp(prefix="libchunkcache.", suffix=".tmp", dir=os.path.dirname(SHIM))
+            os.close(fd)
             p = subprocess.run([cc, "-O2", "-shared", "-fPIC", "-o", tmp, src, "-ldl"], stdout=subprocess.PIPE, stderr=subprocess.STDOUT, text=True)
             if p.returncode == 0:
+                os.chmod(tmp, 0o755)
                 os.replace(tmp, SHIM)
+                if not _shim_loads():
+                    continue
                 if verbose:
                     print("setup: built %s with %s" % (os.path.basename(SHIM), cc))
                 return True
